@@ -126,17 +126,20 @@ def local_id_identity_sites(fn: Func) -> list:
             return not _flat_receiver(e.args[0]) and (fn.qual, norm(e.args[0])) not in LOCAL_ID_EXCEPTIONS
         return isinstance(e, ast.Attribute) and e.attr == "id" and not _flat_receiver(e.value) \
             and (fn.qual, norm(e.value)) not in LOCAL_ID_EXCEPTIONS
+    def has_id(e):
+        # the id itself, or a tuple key one of whose components is the id: (obj.id, attribute, scenario)
+        return is_id(e) or (isinstance(e, ast.Tuple) and any(is_id(x) for x in e.elts))
     for n in own_nodes(fn):
         if isinstance(n, ast.Compare) and len(n.ops) == 1:
             l, r = n.left, n.comparators[0]
             if isinstance(n.ops[0], (ast.Eq, ast.NotEq)) and is_id(l) and is_id(r):
                 out.append((n, f"identity test by local id: {norm(n)}"))
-            elif isinstance(n.ops[0], (ast.In, ast.NotIn)) and is_id(l):
+            elif isinstance(n.ops[0], (ast.In, ast.NotIn)) and has_id(l):
                 out.append((n, f"membership test by local id: {norm(n)}"))
         elif isinstance(n, ast.Call) and isinstance(n.func, ast.Attribute) and n.func.attr in ("add", "append", "discard", "remove") \
-                and len(n.args) == 1 and is_id(n.args[0]):
+                and len(n.args) == 1 and has_id(n.args[0]) and not (isinstance(n.args[0], ast.Tuple) and n.func.attr == "append"):
             out.append((n, f"collection keyed by local id: {norm(n)}"))
-        elif isinstance(n, ast.Subscript) and is_id(n.slice):
+        elif isinstance(n, ast.Subscript) and has_id(n.slice):
             out.append((n, f"table keyed by local id: {norm(n)}"))
         elif isinstance(n, (ast.SetComp, ast.ListComp)) and is_id(n.elt):
             out.append((n, f"collection of local ids: {norm(n)[:60]}"))
